@@ -360,6 +360,20 @@ async fn episode(p: &EpParams) -> EpReport {
                     }
                     seq.create_topic(&t).await;
                     step = "create_topic".into();
+                } else if rng.chance(1, 2) {
+                    // the name is taken: a duplicate CreateTopic is refused (ALREADY_EXISTS) and the
+                    // topic that holds the name stays the one it was, with its subscriptions
+                    let before = seq.cx.list_topic_subs(&t, 1000, "").await.map(|x| x.0);
+                    seq.create_topic(&t).await;
+                    let after = seq.cx.list_topic_subs(&t, 1000, "").await.map(|x| x.0);
+                    match (before, after) {
+                        (Ok(b), Ok(a)) if a == b => {}
+                        (Ok(b), Ok(a)) => rep.viol("C10", "C10:refused-create-changed-state:CreateTopic", format!("ListTopicSubscriptions({}) was {:?} before a CreateTopic that was refused and is {:?} after it", short(&t), b, a)),
+                        (Ok(_), Err(e)) => rep.viol("C10", "C10:refused-create-changed-state:CreateTopic", format!("ListTopicSubscriptions({}) worked before a refused CreateTopic and answers {:?} after it", short(&t), e.code())),
+                        _ => {}
+                    }
+                    rep.inc("duplicate_topic_creates_refused");
+                    step = "create_topic_again".into();
                 } else {
                     continue;
                 }
